@@ -51,6 +51,19 @@ def run(chk):
         if lim and fam in fams:
             for n in (lim + 1, lim, lim - 1, lim + 2, 5, lim, 3 * lim, lim):
                 cases.append((fams[fam](n), "family:%s:%d" % (fam, n)))
+    # characters at the edges of the encoding lengths and of every extracted class run (where a table lookup or a fast path
+    # would be off by one), in every position a character can stand, literally and as a character reference
+    edge = {0x7E, 0x7F, 0x80, 0x81, 0xFF, 0x100, 0x7FF, 0x800, 0xFFFD, 0x10000, 0x10FFFF, 0xD7FF, 0xE000}
+    for key in ("char", "namestart", "namechar"):
+        for lo, hi in tabs[key][:40]:
+            edge.update(x for x in (lo - 1, lo, hi, hi + 1) if 0 < x <= 0x10FFFF and not 0xD800 <= x <= 0xDFFF)
+    edge.update(cp for _, cp in lib.CLASS_PANICS)
+    for cp in sorted(edge):
+        c = chr(cp)
+        for tmpl in ("<a>%s</a>", "<a b='%s'/>", "<!--%s--><a/>", "<?p %s?><a/>", "<a><![CDATA[%s]]></a>", "<a%s/>", "<%s/>"):
+            cases.append((tmpl % c, "edge-char"))
+        cases.append(("<a>&#x%X;</a>" % cp, "edge-char"))
+        cases.append(("<a b='&#%d;'/>" % cp, "edge-char"))
     cases = [(t, w) for t, w in cases if "\x00" not in t]
     lines = [lib.req("pipeline", t) for t, _ in cases]
     impl = lib.run_lines(h, lines, timeout=per_line * 30, per_line_resume=True)
